@@ -189,8 +189,8 @@ static void prop_equal_ulps64(pbt::Ctx& c) { prop_equal_ulps<double>(c); }
 #define ULPS_RULE "16 pairs (x from the structured generator: +-0, subnormals, binade boundaries, +-max, values straddling zero, moderate, raw; y at distance maxULPs-3..maxULPs+3 either side, -x, " \
 	"unrelated, +-0 pairs) with maxULPs in {0,1,2,4,64} or 0..66, through equal/notEqual: scalar, vec1-4 (int and ivec budgets), 9 matrix shapes (int and ivec budgets), exact matrix/quaternion equal; " \
 	"non-trivial = some pair exactly at distance maxULPs or maxULPs+1 and both outcomes present"
-PBT_RANDOM("equal_ulps/float", prop_equal_ulps32, 150000, 6000000, ULPS_RULE);
-PBT_RANDOM("equal_ulps/double", prop_equal_ulps64, 150000, 6000000, ULPS_RULE);
+PBT_RANDOM("equal_ulps/float", prop_equal_ulps32, 150000, 10000000, ULPS_RULE);
+PBT_RANDOM("equal_ulps/double", prop_equal_ulps64, 150000, 10000000, ULPS_RULE);
 
 // =================================================================================================================
 // epsilon comparisons
@@ -392,5 +392,5 @@ static void prop_equal_eps64(pbt::Ctx& c) { prop_equal_eps<double>(c); }
 #define EPS_RULE "16 pairs with |x-y| aimed at epsilon-2ulp..epsilon+2ulp, 0, epsilon/2, 2 epsilon or unrelated (x: 0, multiples of epsilon and epsilon/2, powers of two, moderate, raw finite), epsilon in " \
 	"{0, 1e-6..1000, T epsilon, 2 T epsilon, denorm_min, min normal, 2^k, log-uniform}, through equal/notEqual (ext scalar, vec1-4 with scalar and vector epsilon, 9 matrix shapes with scalar and " \
 	"vector epsilon, quaternion) and epsilonEqual/epsilonNotEqual (gtc scalar, vec1-4, quaternion); non-trivial = some pair at or one step from epsilon and both outcomes present"
-PBT_RANDOM("equal_epsilon/float", prop_equal_eps32, 150000, 6000000, EPS_RULE);
-PBT_RANDOM("equal_epsilon/double", prop_equal_eps64, 150000, 6000000, EPS_RULE);
+PBT_RANDOM("equal_epsilon/float", prop_equal_eps32, 150000, 10000000, EPS_RULE);
+PBT_RANDOM("equal_epsilon/double", prop_equal_eps64, 150000, 10000000, EPS_RULE);
